@@ -3,7 +3,7 @@
    driven through AppRunner or web.run_app with instrumented cleanup contexts and
    signal handlers.
 
-   cfg   : entry, failStart, failShut, failClean (lists of step names), siteFails, startKind, cleanKind
+   cfg   : tree, entry, failStart, failShut, failClean (lists of step names), siteFails, startKind, cleanKind
    events: [ev |-> kind, n |-> name, k |-> kind of exception for *_fail events: "exc" | "base"]
      user callbacks   enter_begin/enter_done/enter_fail c   exit_begin/exit_done/exit_fail c
                       call h / call_fail h                  (h = Xsu Xsh Xcl, X = R S U)
@@ -74,7 +74,7 @@ FinalClause(mm, c) ==
         ELSE IF MStartupFailed(mm) /\ miss \subseteq SubCtx
             THEN "SubAppContextNotExitedAfterFailedStartup"
         ELSE IF ~MStartupFailed(mm) /\ mm.exited = <<>>
-                /\ \E x \in mm.failed : x[1] = "call" /\ x[2] \in ShutSteps
+                /\ \E x \in mm.failed : x[1] = "call" /\ x[2] \in ShutNames
             THEN "ShutdownHandlerErrorSkipsCleanup"
         ELSE IF ~MStartupFailed(mm) /\ miss \subseteq SubCtx
                 /\ \E x \in mm.failed : x[1] = "exit" \/ (x[1] = "call" /\ x[2] \in ClNames)
@@ -98,7 +98,7 @@ Clause(mm, e, c) ==
 
 \* refinement: user-callback order predicted by the implementation-shaped model
 Predicted(c) ==
-    LET fin == RunToEnd(InitState(c.entry, ToSet(c.failStart), c.siteFails, ToSet(c.failShut), ToSet(c.failClean),
+    LET fin == RunToEnd(InitState(c.tree, c.entry, ToSet(c.failStart), c.siteFails, ToSet(c.failShut), ToSet(c.failClean),
                                   c.startKind, c.cleanKind))
     IN SelectSeq(fin.log, LAMBDA x : x[1] \in Callback)
 
@@ -113,7 +113,7 @@ TInit ==
     /\ l = 0
     /\ m = M0
     /\ bad = ""
-    /\ s = InitState("Runner", {}, FALSE, {}, {}, "exc", "exc")      \* the model's own variable is not used here
+    /\ s = InitState("one", "Runner", {}, FALSE, {}, {}, "exc", "exc")      \* the model's own variable is not used here
     /\ Verdict(tid, 0, "", <<"", "">>)
 
 TNext ==
